@@ -72,12 +72,6 @@ fn strat(w: CWeights, min_ops: usize, max_ops: usize) -> impl Strategy<Value = C
 	)
 }
 
-fn cpu_ms() -> u64 {
-	let mut ts = libc::timespec { tv_sec: 0, tv_nsec: 0 };
-	unsafe { libc::clock_gettime(libc::CLOCK_THREAD_CPUTIME_ID, &mut ts) };
-	ts.tv_sec as u64 * 1000 + ts.tv_nsec as u64 / 1_000_000
-}
-
 /// What one executed history looked like (for labels / non-triviality).
 #[derive(Default)]
 struct Outcome {
@@ -95,7 +89,6 @@ struct Outcome {
 /// Run `ops` on a fresh world, step the oracles after every operation, settle, run the final checks.
 /// A panic inside the library is a failure of the case; the known ones get line-independent keys.
 fn run(spec: &WorldSpec, ops: &[COp], resolutions: &[bool], ctx: &mut Ctx) -> Result<Outcome, Failure> {
-	let c0 = cpu_ms();
 	let mut sim = spec.build(false);
 	let r = match std::panic::catch_unwind(std::panic::AssertUnwindSafe(|| run_inner(spec, ops, resolutions, ctx, &mut sim))) {
 		Ok(r) => r,
@@ -119,18 +112,8 @@ fn run(spec: &WorldSpec, ops: &[COp], resolutions: &[bool], ctx: &mut Ctx) -> Re
 			}
 		},
 	};
-	// development aids (never set by ./check): cpu report, and exclusion of failure keys under triage
-	if std::env::var("VERIF_C02_TIMING").is_ok() {
-		vcore::report(&format!("[cpu] total {} ms, {} ops, height {}, pending: {}", cpu_ms() - c0, ops.len(), sim.chain.height(), sim.c02_chain_work_desc().chars().take(200).collect::<String>()));
-	}
 	if ctx.replay && (r.is_err() || std::env::var("VERIF_C02_TRACE").is_ok()) {
 		println!("==== history ====\n{}", dump_history(&sim));
-	}
-	if let (Err(f), Ok(ex)) = (&r, std::env::var("VERIF_C02_EXCLUDE")) {
-		if ex.split(',').any(|k| k == f.key) {
-			ctx.label(&format!("excluded-under-triage:{}", f.key));
-			return Ok(Outcome { foreign: Some(("triage".into(), f.key.clone())), ..Default::default() });
-		}
 	}
 	r
 }
@@ -249,7 +232,7 @@ fn outcome_label_list(o: &Outcome) -> Vec<String> {
 		}
 	};
 	if let Some((p, k)) = &o.foreign {
-		add(p != "triage", &format!("foreign-failure:{}:{}", p, k));
+		add(true, &format!("foreign-failure:{}:{}", p, k));
 		return v;
 	}
 	let st = &o.stats;
@@ -415,11 +398,14 @@ fn main() {
 	c.assume("the chain is not censored: every block contains everything in the mempool valid for it, blocks reach every node at once, no reorgs; every node handles its events after each block (anchor claims are broadcast then)");
 	c.assume("the forwarder's documented expiry buffer is LATENCY_GRACE_PERIOD_BLOCKS = 3 beyond the next block height; ANTI_REORG_DELAY = 6");
 	c.assume("trampoline, intercepted and phantom forwards, fee updates and channel config updates are not generated; all channels of a world share one forwarding policy");
+	c.assume("a preimage B learned by message counts as known only while it survives: after a crash it must be in the manager snapshot used (taken after it was learned) or in a monitor image used, otherwise B has to learn it again (retransmission or chain)");
+	c.assume("the transport drops a bogus channel_reestablish (commitment numbers 0/0) for a channel neither end has any more: two LDK nodes that both closed a channel otherwise answer each other forever");
+	c.assume("the irrevocable-removal and balance model is an independent BOLT-2 model instance (netsim::model::ChanModel) driven by the observed wire messages; CommitOracle runs alongside as a tripwire (foreign-failure:C01:* labels)");
 	c.part_with(
 		PartSpec {
 			name: "forward-offchain",
 			rule: &format!("line A-B-C (also A-B-C-D and two parallel B-C channels), generated world; 12..N operations: sends through B in both directions with the hop fee (-1/0/+1 msat) and CLTV delta (-1/0/+1) around B's policy, final CLTV deltas around the expiry buffer, amounts around the next hop's minimum / B's outbound limit / dust thresholds; claims and failures by the recipient; individual message deliveries, forwards, events; asynchronous persistence on B's channels with any completion order; disconnects; manager snapshots and restarts of B. {}", RULE_TAIL),
-			quick_cases: 2000,
+			quick_cases: 1800,
 			thorough_cases: 70_000,
 			max_shrink: 500,
 		},
@@ -430,7 +416,7 @@ fn main() {
 		PartSpec {
 			name: "forward-onchain",
 			rule: &format!("as forward-offchain plus force closes of either link by either end, uncensored mining (conflicting candidates in either order), and mining up to the downstream / upstream expiry of a forwarded HTLC -8..+8 blocks (the next hop claims before, at or after the timeout, or never). {}", RULE_TAIL),
-			quick_cases: 1200,
+			quick_cases: 1100,
 			thorough_cases: 45_000,
 			max_shrink: 500,
 		},
@@ -441,7 +427,7 @@ fn main() {
 		PartSpec {
 			name: "crash-points",
 			rule: &format!("fault enumeration over the crash point: roomy line worlds; setup brings 1-5 exact-policy payments through B to the recipient (some of B's channels persisting asynchronously) and ends with a manager snapshot; the flow starts with the recipient's claim reaching B and continues with 3..21 atomic steps (single message deliveries, single update completions, snapshots, forwards, events, further claims/failures, disconnects); B is crashed after every prefix of the flow (30% of the cases) or after 3-6 picked prefixes, restarted from the newest / an older manager snapshot and the durable (or landed) monitor images, and the continuation is driven to quiescence under all oracles. {} Non-trivial: in at least one crash the restart fell between B learning a preimage and the upstream resolution", RULE_TAIL),
-			quick_cases: 240,
+			quick_cases: 220,
 			thorough_cases: 9_000,
 			max_shrink: 300,
 		},
